@@ -187,3 +187,49 @@ func H_C13_nested() {
 	vfNote(out)
 	vfAssert(out == one("1")+one("2"), "nested try statements are each all-or-nothing")
 }
+
+// H_C13_sequence: several try statements one after another and inside an enclosing
+// if body that shadows a variable: a failed body's partial output never shows up in a
+// later try statement, a catch clause without a variable leaves no scope behind, and
+// the shadowing ends with the enclosing body.
+//
+//gosym:reach rendered
+func H_C13_sequence() {
+	f1, f2, f3 := ndBool("f1"), ndBool("f2"), ndBool("f3")
+	form := ndChoice("catch", 3)
+	catches := []string{`{{ catch }}c`, `{{ catch e }}c`, ``}
+	mk := func(fl bool) Func {
+		return func(a Arguments) reflect.Value {
+			if fl {
+				panic(errors.New("x"))
+			}
+			return reflect.ValueOf("")
+		}
+	}
+	c := catches[form]
+	set := hxSet(nil, "/m.jet",
+		`{{ x := "outer" }}{{ if true }}{{ x := "inner" }}`+
+			`{{ try }}one{{ g1() }}{{ range r }}{{ . }}{{ end }}`+c+`{{ end }}|`+
+			`{{ try }}two{{ g2() }}`+c+`{{ end }}|`+
+			`{{ try }}three{{ g3() }}`+c+`{{ end }}|{{ x }}{{ end }}[{{ x }}]{{ isset(e) }}`)
+	vars := make(VarMap)
+	vars.Set("r", []string{"a", "b"})
+	vars.SetFunc("g1", mk(f1))
+	vars.SetFunc("g2", mk(f2))
+	vars.SetFunc("g3", mk(f3))
+	out, err := hxExec(set, "/m.jet", vars, nil)
+	vfReach("rendered")
+	vfAssert(err == nil, "no error escapes")
+	part := func(fails bool, body string) string {
+		if !fails {
+			return body
+		}
+		if form < 2 {
+			return "c"
+		}
+		return ""
+	}
+	want := part(f1, "oneab") + "|" + part(f2, "two") + "|" + part(f3, "three") + "|inner[outer]false"
+	vfNote(out)
+	vfAssert(out == want, "each try is all-or-nothing on its own; nothing of a failed body or of the catch scope survives")
+}
